@@ -17,7 +17,7 @@ CLAIMS = {
     ),
     "C09": (
         "property-based testing (rapid): pointwise set-semantics oracle over generated constraint pairs and boundary-derived candidate versions; native Go fuzzing in the thorough tier",
-        "Generated-input search: pairs of grammar-generated constraints (Default, NPM, Cargo, Go) are united and intersected on freshly parsed operands and every candidate derived from the operands' bounds (plus random versions) is checked against the pointwise meaning: union = or, intersection = and (release versions; all versions under prerelease-inclusive matching through the set text), Empty() matches nothing, commutativity, || permutation invariance, argument not modified. Holds on everything explored; not a proof.",
+        "Generated-input search: pairs of grammar-generated constraints (Default, NPM, Cargo, Go) are united and intersected on freshly parsed operands and every candidate derived from the operands' bounds (plus random versions) is checked against the pointwise meaning: union = or, intersection = and (release versions; all versions under prerelease-inclusive matching through the set text), Empty() matches nothing, commutativity, || permutation invariance, argument not modified. Holds on everything explored; not a proof. Operands are also written in the set syntax (spans in any order, open lower bounds at a release), and the constraint a receiver was taken from must be unchanged after the operation.",
         "Trusts Constraint.MatchVersion of a single parsed constraint as the meaning of the operand (C03 owns that); three listed findings are stepped around by narrow classes (known_findings.txt).",
         "DESIGN.md §7 C09",
     ),
@@ -47,25 +47,25 @@ CLAIMS = {
     ),
     "C12": (
         "property-based testing (rapid) with exhaustive permutation of each generated list (<= 6 elements) against a harness reference model of filter + order",
-        "Generated-input search: for NPM, Maven and PyPI a requirement (range, tag, exact string, junk) and a list of distinct version records are generated; for every permutation of the list (all n! up to 6 elements, 24 sampled beyond) resolve.SortVersions, resolve.MatchRequirement and LocalClient.MatchingVersions must return the model's answer: exactly the satisfying versions in the documented ascending order. Holds on everything explored; not a proof.",
+        "Generated-input search: for NPM, Maven and PyPI a requirement (range, tag, exact string, junk) and a list of distinct version records are generated; for every permutation of the list (all n! up to 6 elements, 24 sampled beyond) resolve.SortVersions, resolve.MatchRequirement and LocalClient.MatchingVersions must return the model's answer: exactly the satisfying versions in the documented ascending order. Holds on everything explored; not a proof. PyPI lists may hold legacy strings that are not versions (range requirements only); records are re-added before the client is asked.",
         "Trusts Constraint.Match for single versions (C03 owns it) and the harness model written from the doc comments and the property statement.",
         "DESIGN.md §7 C12",
     ),
     "C14": (
         "model-based stateful property testing (rapid state machine) against a map-based reference model",
-        "Generated histories of AddVersion calls (new and repeated keys, changed attributes and requirements, Deleted-flagged versions, three systems) are applied to a LocalClient and to a map model; after every step all four client calls are compared with the model over the whole (small) key space. Holds on everything explored; not a proof.",
+        "Generated histories of AddVersion calls (new and repeated keys, changed attributes and requirements, Deleted-flagged versions, three systems) are applied to a LocalClient and to a map model; after every step all four client calls are compared with the model over the whole (small) key space. Holds on everything explored; not a proof. Lookups are repeated with a Requirement-typed key that was never added.",
         "Trusts the harness model (written from the doc comments and the property statement) and Constraint.Match for single versions.",
         "DESIGN.md §7 C14",
     ),
     "C13": (
         "exhaustive enumeration of small rooted graphs under all renumberings + property-based testing (rapid) of random graphs under random renumbering/shuffle; metamorphic oracle plus a harness isomorphism labeller",
-        "Exhaustive for every rooted digraph up to 3 nodes (quick) / 4 nodes and a 5-node slice (thorough) over a 3-name alphabet with 0-1 node errors against all renumberings of non-root nodes; sampled beyond; random graphs up to 40 nodes with duplicate versions, parallel edges, self-loops, cycles, unreachable nodes and node errors under random renumbering and edge/error shuffles. Canon must fail for both or give identical graphs, be idempotent, keep the root, and stay isomorphic to its input. Holds on everything explored; exhaustive only for the enumerated sizes.",
+        "Exhaustive for every rooted digraph up to 3 nodes (quick) / 4 nodes and a 5-node slice (thorough) over a 3-name alphabet with 0-1 node errors against all renumberings of non-root nodes; sampled beyond; random graphs up to 40 nodes with duplicate versions, parallel edges, self-loops, cycles, unreachable nodes and node errors under random renumbering and edge/error shuffles. Canon must fail for both or give identical graphs, be idempotent, keep the root, and stay isomorphic to its input. Holds on everything explored; exhaustive only for the enumerated sizes. Lone-root graphs with several errors and self loops are included.",
         "Trusts the harness isomorphism labeller (colour refinement + individualise-and-refine) for the 'isomorphic to input' clause.",
         "DESIGN.md §7 C13, §6.8",
     ),
     "C19": (
         "model-based stateful property testing (rapid state machine) against a map model, plus text round trips through schema.New / schema.ParseResolve",
-        "Generated histories of set/add/clone over pools of dep.Type and version.AttrSet values with arbitrary attribute values are compared after every step with a map model: accessors, Equal, Compare (antisymmetric, transitive, zero iff same content), clone independence; every resulting set with a text form is written in the schema's documented syntax and must parse back equal. Holds on everything explored; not a proof.",
+        "Generated histories of set/add/clone over pools of dep.Type and version.AttrSet values with arbitrary attribute values are compared after every step with a map model: accessors, Equal, Compare (antisymmetric, transitive, zero iff same content), clone independence; every resulting set with a text form is written in the schema's documented syntax and must parse back equal. Holds on everything explored; not a proof. A text is read a second time after the first result was modified.",
         "Trusts the map model; values containing the schema's own delimiters (| # @ on import lines, ': ' on graph lines, white space in the unquoted Attr|Version form) have no text form and are counted as excluded.",
         "DESIGN.md §7 C19",
     ),
@@ -77,25 +77,25 @@ CLAIMS = {
     ),
     "C16": (
         "differential property-based testing (rapid) against pip's packaging library (26.x cross-checked with the vendored 21.3): requirement fields, name normalisation, and marker truth observed through resolution",
-        "Generated-input search with an independent oracle: PEP 508 requirement strings are parsed by pypi.ParseDependency and by packaging.Requirement and compared field by field (canonical name, extras set, specifier set, marker normalised through str(Marker())); names through CanonPackageName vs canonicalize_name; marker expressions are placed on a dependency in a two-level universe with requested extras and the presence of the guarded node in the resolved graph is compared with packaging's Marker.evaluate in the library's fixed environment, evaluated per requested extra as pip does. Asserted only where the two packaging versions agree. Holds on everything explored; not a proof.",
+        "Generated-input search with an independent oracle: PEP 508 requirement strings are parsed by pypi.ParseDependency and by packaging.Requirement and compared field by field (canonical name, extras set, specifier set, marker normalised through str(Marker())); names through CanonPackageName vs canonicalize_name; marker expressions are placed on a dependency in a two-level universe with requested extras and the presence of the guarded node in the resolved graph is compared with packaging's Marker.evaluate in the library's fixed environment, evaluated per requested extra as pip does. Asserted only where the two packaging versions agree. Holds on everything explored; not a proof. A quarter of the markers are evaluated after a case/spacing variant of themselves in the same resolution.",
         "Trusts packaging 26.3 and pip's vendored 21.3 (where they agree) as the reference for the modelled pip; the library's target environment is read from its generated source; atoms are variable-vs-literal (either order). Two listed findings are stepped around by narrow classes.",
         "DESIGN.md §7 C16, §4.3",
     ),
     "C17": (
         "exhaustive enumeration of descriptors and source declarations (descriptor relation, source-vs-generated comparison with a harness proto3 parser, gRPC method tables) plus property-based wire round trips (rapid)",
-        "The space is finite and enumerated completely: every service method, message, field, nested type, enum and enum value of v3 is compared with v3alpha; every declaration of both committed .proto files is compared both ways with the embedded descriptors of the generated Go packages; the gRPC ServiceDesc tables and FullMethodName constants are compared with the service descriptors; the resolver's system identifiers with the enum numbers. In addition random instances of every v3 message are marshalled and read back through the generated v3alpha types (no unknown fields, identical bytes and JSON).",
+        "The space is finite and enumerated completely: every service method, message, field, nested type, enum and enum value of v3 is compared with v3alpha; every declaration of both committed .proto files is compared both ways with the embedded descriptors of the generated Go packages; the gRPC ServiceDesc tables and FullMethodName constants are compared with the service descriptors; the resolver's system identifiers with the enum numbers. In addition random instances of every v3 message are marshalled and read back through the generated v3alpha types (no unknown fields, identical bytes and JSON). Go enum constants (read from the committed api.pb.go) and the self-description of every Go enum value are compared with the descriptor.",
         "Trusts the harness proto3 parser for the subset of the language the two files use, and google.golang.org/protobuf's reflection of the generated code.",
         "DESIGN.md §7 C17",
     ),
     "C15": (
         "property-based differential testing (rapid) against Maven's own model builder (maven-model-builder 3.8.7 in a JVM oracle server), plus a validity predicate over generated property tables for the interpolation clause",
-        "Generated POM lineages (root + 0-4 ancestors + 0-3 imported BOMs with their own ancestors, BOMs importing BOMs; chained and overriding properties, project.version/groupId/parent.* built-ins with and without pom./project. prefix, placeholders in versions, scopes, optional flags, key fields and exclusions, dependencyManagement with import scope, declarations repeated between child and parent and between model and profiles, profiles activated by default, by JDK version/negation/range, by OS name/family/arch/version with negation, by property, and by two criteria at once) are rendered to pom.xml text read by both sides. The library pipeline (decode, MergeProfiles, MergeParent up the chain, Interpolate, ProcessDependencies with the same pipeline applied to imported BOMs) must produce the same dependencies and managed dependencies, field by field and in order, as the effective model Maven builds for the same files under java.version 11.0.8 and the library's OS settings. Interpolation over arbitrary property tables (cycles, self-reference, undefined keys, unterminated placeholders) must return, expand every resolvable placeholder exactly as a fix-point reference does, and otherwise yield the input with some placeholders expanded and the rest left in place. Holds on everything explored apart from the listed known findings.",
+        "Generated POM lineages (root + 0-4 ancestors + 0-3 imported BOMs with their own ancestors, BOMs importing BOMs; chained and overriding properties, project.version/groupId/parent.* built-ins with and without pom./project. prefix, placeholders in versions, scopes, optional flags, key fields and exclusions, dependencyManagement with import scope, declarations repeated between child and parent and between model and profiles, profiles activated by default, by JDK version/negation/range, by OS name/family/arch/version with negation, by property, and by two criteria at once) are rendered to pom.xml text read by both sides. The library pipeline (decode, MergeProfiles, MergeParent up the chain, Interpolate, ProcessDependencies with the same pipeline applied to imported BOMs) must produce the same dependencies and managed dependencies, field by field and in order, as the effective model Maven builds for the same files under java.version 11.0.8 and the library's OS settings. Interpolation over arbitrary property tables (cycles, self-reference, undefined keys, unterminated placeholders) must return, expand every resolvable placeholder exactly as a fix-point reference does, and otherwise yield the input with some placeholders expanded and the rest left in place. Holds on everything explored apart from the listed known findings. The optional flag is compared as a boolean; a second check (merge-isolation, no external oracle) merges one decoded parent into two children and compares each with the result of a parent decoded for it alone.",
         "Trusts maven-model-builder 3.8.7 (Debian) as Maven; lineages on which Maven reports an error, and lineages whose Maven result still contains an unresolved placeholder (Maven keeps such entries, the library documents that it drops them), are outside the domain and counted. Same-list duplicates, OS families Maven does not enumerate, key placeholders colliding after interpolation and one-digit JDK prefixes are not generated: they are recorded findings replayed from their witnesses.",
         "DESIGN.md §7 C15",
     ),
     "C18": (
         "property-based differential testing (rapid) of the API-backed client against a harness-built in-memory client behind an in-process fake Insights service, structural predicates over the four client calls, and concurrent batches under the Go race detector",
-        "Generated npm registries (scoped names, shuffled version lists with is_default, all four dependency sections plus bundleDependencies, npm: aliases incl. scoped targets, bundle trees to depth 3 incl. copies installed under an alias and packages unknown to the registry) are served by a fake pb.InsightsClient. For every version: every bundled entry is a package with the mangled name, one concrete version carrying DerivedFrom, required by its bundling parent with a requirement that MatchingVersions resolves to exactly that version, and Version/Versions/Requirements/MatchingVersions agree; aliases become requirements on the real name with KnownAs. npm resolution through the APIClient equals (harness isomorphism labeller) resolution over a LocalClient loaded from the generated model by the harness. A -race binary resolves up to 16 roots concurrently through one APIClient: no race report, every graph equals the sequential one. Holds on everything explored; interleavings are sampled, not enumerated.",
+        "Generated npm registries (scoped names, shuffled version lists with is_default, all four dependency sections plus bundleDependencies, npm: aliases incl. scoped targets, bundle trees to depth 3 incl. copies installed under an alias and packages unknown to the registry) are served by a fake pb.InsightsClient. For every version: every bundled entry is a package with the mangled name, one concrete version carrying DerivedFrom, required by its bundling parent with a requirement that MatchingVersions resolves to exactly that version, and Version/Versions/Requirements/MatchingVersions agree; aliases become requirements on the real name with KnownAs. npm resolution through the APIClient equals (harness isomorphism labeller) resolution over a LocalClient loaded from the generated model by the harness. A -race binary resolves up to 16 roots concurrently through one APIClient: no race report, every graph equals the sequential one. Holds on everything explored; interleavings are sampled, not enumerated. The four calls must agree on a version a bundled package does not have.",
         "The in-memory side answers not-found for a package without versions, as the service does (LocalClient documents that it creates an empty entry instead). Bundle slots shadowing the bundling package's own name are not generated: they trigger the recorded npm resolver non-termination (C04 npm-bundle-reentry-nontermination); resolutions exceeding a 5 s watchdog are counted as excluded.",
         "DESIGN.md §7 C18",
     ),
@@ -107,7 +107,7 @@ CLAIMS = {
     ),
     "C06": (
         "property-based testing (rapid) with validity predicates over the returned graph and the final install tree (verif hook); requirement satisfaction tabulated by node-semver",
-        "Generated npm universes and every root are resolved; six predicates are checked on each result: edge targets satisfy their requirements (node-semver 7.x cross-checked with 5.7.1), every surviving requirement has an edge or a node error, all nodes reachable, fresh installs pick latest / highest non-deprecated / highest, no directory of the install tree holds two entries of one name, and Node's walk-up lookup from every dependent lands on the edge's target. Holds on everything explored; not a proof.",
+        "Generated npm universes and every root are resolved; six predicates are checked on each result: edge targets satisfy their requirements (node-semver 7.x cross-checked with 5.7.1), every surviving requirement has an edge or a node error, all nodes reachable, fresh installs pick latest / highest non-deprecated / highest, no directory of the install tree holds two entries of one name, and Node's walk-up lookup from every dependent lands on the edge's target. Holds on everything explored; not a proof. A Resolve that fails on a universe whose root exists counts as a violation (unresolvable requirements are node errors).",
         "Needs the verif hook (install tree). Trusts node-semver for satisfaction. Like npm 6 (and as the repository's alias tests pin), an entry found under the dependency's name resolves the requirement when its version satisfies the range, whatever package it is. Universes avoid the recorded npm alias-cycle non-termination by construction; universes where latest sits on a prerelease while releases exist assert clause 1 only (counted).",
         "DESIGN.md §7 C06, §3.5",
     ),
